@@ -88,7 +88,7 @@ SEEDS = {
  "C10-m5": ("DecodingStrategy.step passes top_p = 0 / top_k = 0 to process_logits when an action is given", "non-default top_k / top_p together with evaluate mode (re-evaluation of sampled actions)"),
  "C10-m6": ("sample_n_random_actions sums the mask over the batch axis in its replacement test", "batch with >= n rows where some instance has fewer than n admissible actions"),
  "C01-m5": ("PCTSPEnv.__init__ stores a `stochastic` instance attribute that shadows SPCTSPEnv's class attribute (two cooperating sites)", "SPCTSPEnv: the minimum prize is checked against expected instead of revealed prizes"),
- "C01-m6": ("TSPEnv._reset sizes the mask from generator.num_loc instead of the instance", "hand-supplied instances of another size than the generator's"),
+ "C01-m6": ("CVRPTWEnv._reset casts the service durations to int64 (truncation)", "hand-supplied / scaled instances with non-integer service durations"),
  "C03-m5": ("CVRPEnv._get_reward no longer prepends the depot (relies on padding to close the tour)", "the longest row of a batch / a batch of one (no trailing depot padding)"),
  "C03-m6": ("PCTSPEnv._get_reward takes the unvisited penalty from the state's `visited` field", "get_reward on a td that is not the final state of that roll-out (evaluation, re-scoring)"),
  "C04-m5": ("PCTSPEnv.get_action_mask: `all nodes visited` reduced over the whole batch", "batch whose rows visit all customers at different steps"),
